@@ -3,6 +3,7 @@ import math
 import numpy as np
 from hypothesis import strategies as st, assume
 
+from ..fuzz import fuzzed
 from ..core import Obligation, Out
 from .. import cat, cogcat, rtools
 from ..strat import uni, logu, pos, gamma_gt1, geometry
@@ -195,7 +196,8 @@ def check_sedov(case):
     outer = np.array([rho_ahead, 0.0, 0.0, 0.0])
     rh(o, inner, outer, D, 1.5e-2, case['kind'])
     g = case['gamma']
-    o.close('strong shock: density ratio (g+1)/(g-1)', inner[0] / rho_ahead, (g + 1) / (g - 1), 1e-6, regime=case['kind'])
+    # the node value comes from the solver's fminbound root find (vtol = 1e-8 in the similarity variable): measured 3.4e-6 at gamma = 1.05, 1.7e-6 at 1.1, < 1e-6 above 1.2
+    o.close('strong shock: density ratio (g+1)/(g-1)', inner[0] / rho_ahead, (g + 1) / (g - 1), 5e-5, regime=case['kind'])
     x_out = np.array([2001 * node, 2002 * node])
     o.close('ahead of the shock: undisturbed density rho0 r^-omega', F[0, 1:], case['rho0'] * x_out ** (-case['omega']), 1e-9, regime=case['kind'])
     o.close('ahead of the shock: at rest, cold', F[1:3, 1:].ravel(), 0.0, 0.0, atol=0.0, regime=case['kind'])
@@ -531,3 +533,5 @@ OBLIGATIONS = [
 for _o in OBLIGATIONS:
     if _o.name in ('sedov-shock', 'geneos-jumps', 'geneos-jwl-jumps', 'guderley-shock', 'guderley-shock-lazarus-time', 'rmtv-shock'):
         _o.cost = 50.0
+# coverage-guided supplement (atheris / libFuzzer over the same strategy and oracle; see vp/fuzz.py)
+OBLIGATIONS.append(fuzzed([o for o in OBLIGATIONS if o.name == 'igeos-jumps'][0], quick=0, thorough=8000, modules=('exactpack.solvers.riemann',), min_per_shard=1000))
